@@ -286,6 +286,30 @@ class Draw:
         return self.v
 
 
+def entry_point_flags(make, call):
+    """the package's top-level entry points hand their mode flags to the environment: `make(fully_obs=, flat_actions=,
+    flat_obs=)` must return an environment in exactly the requested modes.  Returns [(property, what)]."""
+    out = []
+    for fo, fa, fb in ((True, False, False), (False, True, True), (False, False, True), (True, True, False)):
+        try:
+            env = make(fully_obs=fo, flat_actions=fa, flat_obs=fb)
+            obs, _ = env.reset()
+            asp = env.action_space
+            facts = [("C08", "fully_obs", bool(env.fully_obs), fo), ("C11", "flat_actions", bool(env.flat_actions), fa),
+                     ("C09", "flat_obs", bool(env.flat_obs), fb),
+                     ("C09", "observation is 1-D", getattr(obs, "ndim", None) == 1, fb),
+                     ("C11", "action space is the flat one", hasattr(asp, "n") and not hasattr(asp, "nvec"), fa)]
+            for own, name, got, want in facts:
+                if got != want:
+                    out.append((own, f"{call}(fully_obs={fo}, flat_actions={fa}, flat_obs={fb}) returns an environment "
+                                     f"with {name} = {got}"))
+        except Exception as e:
+            if not raised_by_implementation(e):
+                raise
+            out.append(("C10", f"{call}(fully_obs={fo}, flat_actions={fa}, flat_obs={fb}) raises {type(e).__name__}"))
+    return sorted(set(out))
+
+
 def raised_by_implementation(exc):
     """True when the innermost frame of the exception lies in $NASIM_REPO/nasim (the implementation
     raised on an input the harness considers valid) rather than in the harness itself"""
